@@ -23,7 +23,10 @@ RULE = (
     "insertion order of atoms/bonds/descriptors/changes o re-expression of "
     "every descriptor by a random proper (or improper with flipped parity) "
     "element of the geometric oracle; variant built fresh, or obtained by "
-    "the library's relabel_atoms (copy / in place). Oracle: a==b, b==a, "
+    "the library's relabel_atoms (copy / in place); a third source builds the "
+    "graph through a random editing history (removals, in-place relabels, "
+    "deleted descriptors / changes) and compares it with a renamed fresh "
+    "build of the same labelled graph. Oracle: a==b, b==a, "
     "a.is_isomorphic(b), a==a, b==b all True. Non-trivial: renaming moves "
     ">=1 atom AND the graph has a descriptor, stereo change, non-plain bond, "
     "isolated atom or >=2 components; distinct = SHA-1 of the case."
@@ -131,9 +134,58 @@ def shrink_pair(case):
         yield {**case, "b": cand}
 
 
+HIST_IDS = [0, 1, 2, 3, 5, 8, -1, -4, 17, 40, 2**33]
+
+
+def check_history(ctx, case):
+    """a graph reached through an editing history (removals, in-place
+    relabels, deleted stereo changes ...) must compare equal to a renamed
+    fresh build of the same labelled graph, and so must its own renaming"""
+    from vp import ops as O
+    from vp.model import validity_error
+    cls = case["cls"]
+    m = O.replay_model(cls, case["ops"])
+    if validity_error(m, strict=False) is not None:
+        return None                       # odd state: not a C01 input
+    g = rc.classes()[cls]()
+    try:
+        for op in case["ops"]:
+            g = O.apply_real(g, op)
+    except Exception:
+        return None                       # C09's business
+    mp = {a: b for a, b in case["mapping"] if a in m.atoms}
+    for a in m.atoms:
+        mp.setdefault(a, a)
+    if len(set(mp.values())) != len(mp):
+        raise HarnessError("history case: mapping not injective")
+    rb, info = S.variant_from(m, list(mp.items()), case["tseed"])
+    b = rc.build(rb)
+    tag = "history"
+    with guard(f"C01/{cls}/history/relabel"):
+        c = g.relabel_atoms(dict(mp), copy=True)
+    for name, x, y in (("g==fresh", g, b), ("fresh==g", b, g),
+                       ("g==g", g, g), ("g==relabelled", g, c),
+                       ("relabelled==fresh", c, b)):
+        with guard(f"C01/{cls}/history/{name}"):
+            res = (x == y)
+        if res is not True:
+            raise Violation(f"C01/{cls}/history/{name}-false",
+                            f"{name} returned {res!r} after the history")
+    return m, info
+
+
+def shrink_history(case):
+    ops = case["ops"]
+    for i in range(len(ops) - 1, -1, -1):
+        yield {**case, "ops": ops[:i] + ops[i + 1:]}
+
+
 def check_case(ctx, case):
     if case.get("via") == "pair":
         check_pair(ctx, case)
+        return
+    if case.get("via") == "history":
+        check_history(ctx, case)
         return
     r = case["a"]
     cls = r["cls"]
@@ -202,3 +254,36 @@ def run(ctx):
 
     ctx.hyp("c01-pairs", S.tapes(1200).map(gen_p), check_p,
             ctx.scale(3000, 150000), shrinker=shrink_pair)
+
+    # third source: graphs reached through editing histories
+    def gen_h(data):
+        tp = S.Tape(data)
+        cls = tp.pick(["MG", "SMG", "CRG", "SCRG"])
+        ops, m = S.history(tp, cls, HIST_IDS, 4 + tp.below(30))
+        atoms = list(m.atoms)
+        pool = [i for i in HIST_IDS + [600, 601, 602, 603] if True]
+        k = tp.weighted([2, 3])
+        if k == 0 or not atoms:
+            mp = {a: a for a in atoms}
+        else:
+            mp = dict(zip(atoms, tp.shuffle(
+                list(dict.fromkeys(atoms + pool)))[:len(atoms)]))
+        return {"via": "history", "cls": cls, "ops": ops,
+                "mapping": [[a, b] for a, b in mp.items()],
+                "tseed": tp.below(1 << 30)}
+
+    def check_h(case):
+        res = check_history(ctx, case)
+        if res is None:
+            ctx.exclude("history-not-a-clean-graph")
+            return
+        m, info = res
+        kinds = {o[0] for o in case["ops"]}
+        ctx.note(case, bool(kinds & {"remove_atom", "remove_bond",
+                                     "relabel_inplace", "del_atom_change",
+                                     "del_bond_change"}) and len(m.atoms) > 1,
+                 ["via:history", f"cls:{case['cls']}"]
+                 + [f"hist:{k}" for k in kinds])
+
+    ctx.hyp("c01-history", S.tapes(2500).map(gen_h), check_h,
+            ctx.scale(2500, 100000), shrinker=shrink_history)
